@@ -735,7 +735,8 @@ where
                 // Collect all existing key-value pairs
                 let mut existing_entries = Vec::new();
                 for entry in entries.iter() {
-                    if entry.hash != 0 {
+                    // live entries only: neither empty slots (0) nor tombstones (u64::MAX)
+                    if entry.hash != 0 && entry.hash != u64::MAX {
                         existing_entries.push((entry.key.clone(), entry.value.clone(), entry.hash));
                     }
                 }
